@@ -58,7 +58,9 @@ FINISH = dict(rule="cases = complete TLC enumeration (one initial state per case
                    "bounded catalogue per family; every case is executed through every applicable API rendering "
                    "(typed: UnmarshalJsonBytes, UnmarshalKey, UnmarshalYamlBytes, conf.LoadFromJsonBytes x 3 spellings, "
                    "conf.LoadFromYamlBytes; text: ParseForm, Parse, ParsePath, ParseHeaders; roundtrip: httpc.Do -> "
-                   "router -> httpx.Parse; twice: every typed API called twice with the same document, the first "
+                   "router -> httpx.Parse after a config load; history: conf.Load* first, then UnmarshalJsonBytes, UnmarshalKey, "
+                   "UnmarshalYamlBytes, httpx.Parse with a JSON body on keys spelt snake_case / Upper-initial / mixed / "
+                   "lowerCamel; twice: every typed API called twice with the same document, the first "
                    "result edited in place and appended to in between) twice in seeded random order; steps = API calls judged")
 
 ALLK = ['"bool"', '"int8"', '"int16"', '"int32"', '"int64"', '"int"', '"uint8"', '"uint16"', '"uint32"', '"uint64"',
@@ -139,7 +141,12 @@ def plans(ctx):
         out.append(("twice", [job("twice-%d" % i, "twice", Q(g), Q(["req"]), lits("5", "300", "abc", "1.5", "true"),
                                   litidx2=lits("5", "300", "abc", "xyz", "1.5", "true", '"010"'))
                               for i, g in enumerate(split_kinds(["string", "int8", "int64", "float64", "bool", "uint8"], 3))]))
+        out.append(("history", [job("history", "history", Q(["int8", "string", "float64", "bool"]), Q(["req", "opt", "def", "rcc"]),
+                                    lits("5", "300", "abc", "true", "1.5"))]))
     else:
+        out.append(("history", [job("history-%d" % i, "history", Q(g), Q(["req", "opt", "def", "defbig", "options", "rcc", "str"]),
+                                    lits("5", "300", "-1", "abc", "true", "1.5", "null", '"010"', "10s"))
+                                for i, g in enumerate(split_kinds(allk, 3))]))
         o1 = ["req", "opt", "def", "defbig", "options", "rcc", "roo", "str", "env300"]
         l1 = lits("5", "300", "-1", "256", "1.5", "1.0", "abc", "true", '"10"', "10s", "null", "2^63", "1e39")
         out.append(("pair", [job("pair-%d" % i, "pair", Q(g), Q(o1), l1,
